@@ -6,8 +6,8 @@ from . import ir
 from .machine import Unsupported, EXC_TYPE_STD, Alloc
 
 NEW = {'_Znwm', '_Znam', 'malloc', '_ZnwmRKSt9nothrow_t', '_ZnamRKSt9nothrow_t'}
-NEW_ALIGNED = {'_ZnwmSt11align_val_t', '_ZnamSt11align_val_t'}
-DELETE = {'_ZdlPv', '_ZdaPv', '_ZdlPvm', '_ZdaPvm', 'free', '_ZdlPvSt11align_val_t', '_ZdaPvSt11align_val_t',
+NEW_ALIGNED = {'_ZnwmSt11align_val_t', '_ZnamSt11align_val_t', '_ZnwmSt11align_val_tRKSt9nothrow_t', '_ZnamSt11align_val_tRKSt9nothrow_t'}
+DELETE = {'_ZdlPvSt11align_val_tRKSt9nothrow_t', '_ZdlPvRKSt9nothrow_t', '_ZdlPv', '_ZdaPv', '_ZdlPvm', '_ZdaPvm', 'free', '_ZdlPvSt11align_val_t', '_ZdaPvSt11align_val_t',
           '_ZdlPvmSt11align_val_t', '_ZdaPvmSt11align_val_t'}
 ABORTS = {'abort', '_ZSt9terminatev', '__assert_fail', 'llvm.trap', '__cxa_pure_virtual', '__cxa_call_unexpected',
           '__cxa_deleted_virtual', '__stack_chk_fail', '_ZSt25__throw_bad_function_callv', 'exit', '_exit'}
